@@ -25,6 +25,8 @@ var operandSets = []operandSet{
 	{"float", []model.Value{model.Float(1.5), model.Float(0.25), model.Float(2.0), model.Float(4.5)}},
 	{"string", []model.Value{model.Str("a"), model.Str("b"), model.Str("c"), model.Str("a")}},
 	{"zeroish", []model.Value{model.Int(0), model.Int(1), model.Int(0), model.Int(7)}},
+	// decimal fractions that are not exact in binary: products and sums land next to whole numbers
+	{"inexact-float", []model.Value{model.Float(4.35), model.Float(100.0), model.Float(0.7), model.Float(0.1)}},
 }
 
 // variable names that only look like keywords: a keyword in another case, or with a keyword as prefix
@@ -600,6 +602,46 @@ func init() {
 				Run: func(c *core.Ctx, i int) {
 					judgeExpr(c, holes[i/len(failing)](failing[i%len(failing)]), nil, "failing-subexpression")
 				}})
+			// a name assigned inside a block is unknown after it: the expression that reads it fails; a name of the enclosing
+			// block re-assigned inside keeps its value for the expressions after the block
+			blockKinds := 7
+			secs = append(secs, core.Section{Name: "names-after-blocks", Exhaustive: true, N: blockKinds * 2 * 2,
+				Run: func(c *core.Ctx, i int) {
+					outerKnown := i%2 == 1
+					i /= 2
+					useAfter := i%2 == 1
+					kind := i / 2
+					n := model.Var{Name: "n"}
+					asg := []model.Stmt{model.Assign{Name: "v", E: model.Binary{Op: "+", L: n, R: model.Lit{V: model.Int(10)}}}, model.Print{E: model.Var{Name: "v"}}, model.Text{S: ","}}
+					tt, ff := model.Lit{V: model.Bool(true)}, model.Lit{V: model.Bool(false)}
+					var blk model.Stmt
+					switch kind {
+					case 0:
+						blk = model.If{Conds: []model.Expr{tt}, Bodies: [][]model.Stmt{asg}}
+					case 1:
+						blk = model.If{Conds: []model.Expr{ff, model.Binary{Op: "==", L: n, R: model.Lit{V: model.Int(0)}}}, Bodies: [][]model.Stmt{{model.Text{S: "neg"}}, asg}}
+					case 2:
+						blk = model.If{Conds: []model.Expr{ff, ff, tt}, Bodies: [][]model.Stmt{{model.Text{S: "a"}}, {model.Text{S: "b"}}, asg}, Else: []model.Stmt{model.Text{S: "c"}}}
+					case 3:
+						blk = model.If{Conds: []model.Expr{ff, ff}, Bodies: [][]model.Stmt{{model.Text{S: "a"}}, {model.Text{S: "b"}}}, Else: asg}
+					case 4:
+						blk = model.Each{Var: "e", Arr: literalOf(model.Arr(model.Int(1), model.Int(2))), Body: asg}
+					case 5:
+						blk = model.For{Init: &model.Assign{Name: "k", E: model.Lit{V: model.Int(0)}}, Cond: model.Binary{Op: "<", L: model.Var{Name: "k"}, R: model.Lit{V: model.Int(2)}}, Post: model.Print{E: model.Postfix{Op: "++", X: model.Var{Name: "k"}}}, Body: asg}
+					default:
+						blk = model.Each{Var: "e", Arr: literalOf(model.Arr()), Body: []model.Stmt{model.Text{S: "x"}}, Else: asg}
+					}
+					prog := []model.Stmt{model.Text{S: "<"}}
+					if outerKnown {
+						prog = append(prog, model.Assign{Name: "v", E: model.Lit{V: model.Int(1)}})
+					}
+					prog = append(prog, blk)
+					if useAfter {
+						prog = append(prog, model.Print{E: model.Binary{Op: "*", L: model.Var{Name: "v"}, R: model.Lit{V: model.Int(2)}}})
+					}
+					prog = append(prog, model.Text{S: ">"})
+					judgeProgram(c, prog, map[string]model.Value{"n": model.Int(0)}, "names-after-blocks", false)
+				}})
 			// the same expression evaluated in several passes of a loop gives the same value every time
 			// long and deep expressions: chains of 16..1000 operands, nests of 64..300 parentheses, ternaries, prefix
 			// operators, member calls, literals with many elements
@@ -717,6 +759,18 @@ func boundaryCases() []func(c *core.Ctx) {
 	add(bin("<=", model.Var{Name: "mn"}, model.Var{Name: "mx"}), data)
 	add(bin(">=", model.Var{Name: "mx"}, model.Var{Name: "mn"}), data)
 	add(bin("/", lit(model.Float(1.5)), model.Var{Name: "zf"}), data)
+	// results one or two units in the last place away from a whole number, or from each other
+	fl := func(f float64) model.Expr { return lit(model.Float(f)) }
+	fdata := map[string]model.Value{"price": model.Float(1.15), "qty": model.Float(100.0), "third": model.Float(0.1)}
+	for _, e := range []model.Expr{
+		bin("*", fl(4.35), fl(100.0)), bin("+", bin("+", fl(0.7), fl(0.2)), fl(0.1)), bin("*", model.Var{Name: "price"}, model.Var{Name: "qty"}), bin("+", fl(0.1), fl(0.2)),
+		bin("-", fl(1.0), fl(0.9)), bin("*", fl(3.0), fl(1.1)), bin("*", fl(0.57), fl(100.0)), bin("*", fl(1.1), fl(1.1)), bin("/", fl(1.0), fl(3.0)), bin("*", bin("/", fl(1.0), fl(3.0)), fl(3.0)),
+		bin("+", fl(1e15), fl(0.3)), bin("-", fl(9007199254740992.0), fl(1.0)), bin("*", model.Var{Name: "third"}, fl(3.0)), bin("+", bin("*", model.Var{Name: "third"}, fl(3.0)), fl(0.7)),
+		bin("==", bin("+", fl(0.1), fl(0.2)), fl(0.3)), bin("<", bin("*", fl(4.35), fl(100.0)), fl(435.0)), bin(">=", bin("+", bin("+", fl(0.7), fl(0.2)), fl(0.1)), fl(1.0)),
+		bin("*", fl(2.675), fl(100.0)), bin("*", fl(1.005), fl(1000.0)), bin("-", fl(0.3), fl(0.1)), bin("*", fl(8.2), fl(100.0)), bin("/", fl(434.99999999999994), fl(1.0)), bin("+", fl(0.99999999999999), fl(0.0)),
+	} {
+		add(e, fdata)
+	}
 	add(model.Var{Name: "nope"}, nil)
 	add(bin("+", lit(model.Int(1)), model.Var{Name: "nope"}), nil)
 	add(model.Ternary{C: lit(model.Bool(true)), A: lit(model.Int(1)), B: model.Var{Name: "nope"}}, nil)
